@@ -654,6 +654,31 @@ Proof.
     repeat match goal with H : (_ && _) = true |- _ => apply andb_true_iff in H; destruct H end. lia.
 Qed.
 
+(* ------------------------------------------------------------------ from_scipy_sparse: the promise fails *)
+
+(* scipy.sparse.csr_matrix([[0,1,0,0,0],[1,0,0,0,1]]) @ csr_matrix(5x5): what SciPy returns *)
+Definition scipy_product : gcxs Z :=
+  mkGCXS [2; 5] [0] [2; 3; 1; 3; -1; 1; -2; -1; 3] [4; 3; 1; 0; 2; 1; 0; 4; 3] [0; 4; 9] 0.
+
+Theorem from_scipy_promise_refuted_proof :
+  exists m : gcxs Z, scipy_valid m = true /\ gcxs_wfb (gcxs_from_scipy m) = false.
+Proof. exists scipy_product. split; vm_compute; reflexivity. Qed.
+
+(* ... and holds exactly when SciPy's matrix has sorted, duplicate-free rows *)
+Theorem from_scipy_partial_proof (m : gcxs Z) :
+  scipy_valid m = true ->
+  forallb strictly_increasing (rows_of (g_indices m) (g_indptr m)) = true ->
+  gcxs_wfb (gcxs_from_scipy m) = true.
+Proof.
+  unfold scipy_valid, gcxs_from_scipy. destruct m as [sh ca da ind ptr fl]. simpl.
+  destruct sh as [|r [|c [|? ?]]]; try discriminate. destruct ca as [|a [|? ?]]; try discriminate.
+  intros H Hrows. repeat (apply andb_true_iff in H; destruct H as [H ?]).
+  assert (Ha : a = 0 \/ a = 1) by (apply orb_true_iff in H; destruct H as [H|H]; apply Z.eqb_eq in H; auto).
+  unfold gcxs_wfb. cbn [g_shape g_caxes g_data g_indices g_indptr].
+  destruct Ha as [-> | ->]; cbn [forallb length Z.of_nat]; simpl negb;
+    repeat (apply andb_true_iff; split); auto; try reflexivity.
+Qed.
+
 (* ------------------------------------------------------------------ promises are load-bearing *)
 
 Definition zflags (s d p : bool) : flags := mkFlags s d p.
